@@ -30,7 +30,10 @@ func (b *Block) Height() primitives.BlockHeight             { return b.H }
 func (b *Block) ReferenceTime() primitives.TimestampSeconds { return b.RefTime }
 func HashOf(b *Block) primitives.BlockHash                  { return primitives.BlockHash{b.Tag} }
 
-// Commits: the commitment predicate as a term (no forking).
+// Commits: the commitment predicate as a term (no forking). The one-byte hash stands for a collision-free
+// hash of the whole block: it determines the block's acceptability for the consumer (odd tags are
+// acceptable proposals), so a block whose ProposalOK flag disagrees with its tag matches no hash; the
+// block's height is bound by ValidateBlockCommitment's height argument.
 func Commits(block interfaces.Block, hash primitives.BlockHash) bool {
 	b, ok := block.(*Block)
 	if !ok || b == nil {
@@ -39,7 +42,7 @@ func Commits(block interfaces.Block, hash primitives.BlockHash) bool {
 	if len(hash) != 1 {
 		return false
 	}
-	return hash[0] == b.Tag
+	return env.And(hash[0] == b.Tag, (b.Tag&1 == 1) == b.ProposalOK)
 }
 
 // ---------------- ideal signatures ----------------
@@ -50,6 +53,7 @@ const (
 )
 
 type sigEntry struct {
+	enabled bool // symbolic: the signature was really made (adversarial "properly signed" bit)
 	kind    int
 	signer  []byte
 	height  uint64
@@ -77,13 +81,19 @@ func u64le(v uint64) []byte {
 }
 
 func (r *Registry) Sign(kind int, signer []byte, height uint64, content []byte) []byte {
+	return r.SignIf(true, kind, signer, height, content)
+}
+
+// SignIf registers a signature that exists only if `enabled` holds (a symbolic condition): the token is
+// returned either way, but it verifies only under that condition.
+func (r *Registry) SignIf(enabled bool, kind int, signer []byte, height uint64, content []byte) []byte {
 	r.next++
 	tok := u64le(r.next)
 	c := make([]byte, len(content))
 	copy(c, content)
 	s := make([]byte, len(signer))
 	copy(s, signer)
-	r.entries = append(r.entries, &sigEntry{kind: kind, signer: s, height: height, content: c, token: tok})
+	r.entries = append(r.entries, &sigEntry{enabled: enabled, kind: kind, signer: s, height: height, content: c, token: tok})
 	r.Signed++
 	return tok
 }
@@ -95,7 +105,7 @@ func (r *Registry) Valid(kind int, signer []byte, height uint64, content []byte,
 		if e.kind != kind || len(e.signer) != len(signer) || len(e.content) != len(content) || len(sig) != 8 {
 			continue
 		}
-		m := env.And(env.EqBytes(e.signer, signer), env.And(e.height == height, env.And(env.EqBytes(e.content, content), env.EqBytes(e.token, sig))))
+		m := env.And(e.enabled, env.And(env.EqBytes(e.signer, signer), env.And(e.height == height, env.And(env.EqBytes(e.content, content), env.EqBytes(e.token, sig)))))
 		ok = env.Or(ok, m)
 	}
 	return ok
@@ -165,7 +175,7 @@ func (k *KeyManager) AggregateRandomSeed(blockHeight primitives.BlockHeight, ran
 			if e.kind != KindSeed || e.height != uint64(blockHeight) || len(e.signer) != len(sh.MemberId()) || len(sh.Signature()) != 8 {
 				continue
 			}
-			if env.EqBytes(e.signer, sh.MemberId()) && env.EqBytes(e.token, sh.Signature()) {
+			if e.enabled && env.EqBytes(e.signer, sh.MemberId()) && env.EqBytes(e.token, sh.Signature()) {
 				if content == nil {
 					content = e.content
 					found = true
